@@ -342,7 +342,7 @@ fn float_text() -> impl Strategy<Value = String> {
 }
 
 fn command_line() -> impl Strategy<Value = String> {
-    let files = vec!["good.asm", "good2.asm", "bad.asm", "missing.asm", "dir", "nonutf8.asm", "é.asm", "", "good.asm ", "./good.asm", "dir/inner.asm"];
+    let files = vec!["good.asm", "good2.asm", "bad.asm", "missing.asm", "dir", "nonutf8.asm", "é.asm", "", "good.asm ", "./good.asm", "dir/inner.asm", "GOOD.ASM", "Good.asm", "DIR/inner.asm"];
     let base = prop_oneof![
         6 => (prop::sample::select(vec!["FC", "FD", "FE", "FF"]), any::<bool>(), spacing(), spacing(), number_text()).prop_map(|(r, set, a, b, n)| format!("{}{}{}={}{}", if set { "set " } else { "" }, r, a, b, n)),
         2 => (spacing(), spacing(), number_text()).prop_map(|(a, b, n)| format!("set IRG{}={}{}", a, b, n)),
@@ -386,6 +386,18 @@ fn ev_strategy() -> impl Strategy<Value = Ev> {
         4 => prop::sample::select(vec!['a', 'w', 'e', 'r', 'l', 'x', 'z']).prop_map(Ev::Ctrl),
         1 => (0u8..16).prop_map(Ev::Other),
         12 => command_line().prop_map(Ev::Type),
+        // two lines in a row that are equal, or equal up to letter case / blanks (history, repeated
+        // commands, `load` of paths that differ only in case): '\n' inside a macro is the Enter key
+        3 => (command_line(), any::<u32>(), 0u8..5).prop_map(|(l, mask, how)| {
+            let second = match how {
+                0 => l.clone(),
+                1 => l.to_uppercase(),
+                2 => l.to_lowercase(),
+                3 => format!("{} ", l),
+                _ => recase(&l, mask),
+            };
+            Ev::Type(format!("{}\n{}", l, second))
+        }),
         1 => (prop::sample::select(vec!["load ", "load é", "load d", "load g", "F", "FC", "Fé", "FF ", "l", "s", "se", "load good", "load dir/", "load ./", "F漢"]), 1usize..4).prop_map(|(s, _)| Ev::Type(format!("{}\u{0}", s))),
     ]
 }
@@ -430,6 +442,8 @@ pub fn prepare_scratch() {
     let good2 = "#! mrasm\n*STACKSIZE 32\n JR MAIN\n JR ISR\nMAIN:\n LDSP 0xEF\n BITS (0xF9), 1\n EI\n LD R0, 7\nL:\n DEC R0\n JZC L\n STOP\n JR MAIN\nISR:\n INC R2\n ST (0xFE), R2\n RETI\n";
     let _ = std::fs::write(d.join("good.asm"), good);
     let _ = std::fs::write(d.join("good2.asm"), good2);
+    // same name in another letter case, different program: paths are case-sensitive, keywords are not
+    let _ = std::fs::write(d.join("GOOD.ASM"), good2);
     let _ = std::fs::write(d.join("é.asm"), good);
     let _ = std::fs::write(d.join("bad.asm"), "#! mrasm\n this is not a program\n");
     let _ = std::fs::write(d.join("nonutf8.asm"), [0x23u8, 0x21, 0x20, 0xFF, 0xFE, 0x0A]);
@@ -657,7 +671,7 @@ pub fn run_script(sc: &Script) -> (Verdict, Stats) {
                     Some(t) => (t, Ev::Tab),
                     None => (line.as_str(), Ev::Enter),
                 };
-                let mut v: Vec<Ev> = text.chars().map(Ev::Char).collect();
+                let mut v: Vec<Ev> = text.chars().map(|c| if c == '\n' { Ev::Enter } else { Ev::Char(c) }).collect();
                 v.push(last);
                 v
             }
@@ -713,6 +727,12 @@ pub fn run_script(sc: &Script) -> (Verdict, Stats) {
             }
             if s.quit {
                 return (Verdict::Pass, st);
+            }
+            if is_macro && k == Ev::Enter && s.notification && typed < n_keys {
+                // inner Enter of a two-line macro: dismiss the notification so that the second line arrives whole
+                if let Err((sig, d)) = one_key(&mut s, &Ev::Other(0), 40, 5, &mut st) {
+                    return (Verdict::Fail(sig, d), st);
+                }
             }
         }
     }
@@ -827,6 +847,7 @@ pub fn fuzz_one(data: &[u8], abort: bool) -> Option<(String, String)> {
         "FC = 12", "set fd=0x1f", "FF = 0b101", "FC = 256", "FE = 0x1FF", "set IRG = 7", "set TEMP = 2.5", "set I1 = 0.5", "set I2 = 4",
         "set J1", "unset J1", "set UIO2", "unset UIO3", "show memory", "show register", "next", "next 9", "load good.asm", "load good2.asm",
         "load bad.asm", "load missing.asm", "load dir", "load nonutf8.asm", "load é.asm", "foo", "  ", "set J1 = true", "quit",
+        "load GOOD.ASM", "LOAD good.asm", "load Good.asm", "foo\nFOO", "load good.asm\nload GOOD.ASM", "load GOOD.ASM\nload good.asm", "set j1\nSET J1", "next\nNEXT",
     ];
     let cmd: Vec<char> = CMD_ALPHA.chars().collect();
     let mut p = 0usize;
